@@ -82,7 +82,10 @@ pub fn run(r: &Ref, proc_id: u64, threads: usize, iters: usize, seed: u64) -> Ve
                             let rsig = r.sig_decode(&sig).unwrap();
                             let _ = verif_hooks::take_draws();
                             if let Out::Ok(pb) = lib::proof_gen(s, &pk, &sig, &hdr, &None, &Some(msgs.clone()), &Some(vec![0]), None) {
-                                let p = r.proof_decode(&pb).unwrap();
+                                let Ok(p) = r.proof_decode(&pb) else {
+                                    evs.push(json!({"op": "Made", "kind": "proof", "id": id, "blind": [], "pts": [], "secrets": [], "minbits": 0, "zero": true, "note": "the reference decoder refuses the artefact (degenerate value)"}));
+                                    continue;
+                                };
                                 let ms: Vec<Scalar> = msgs[1..].iter().map(|m| r.msg_scalar(s, &api, m)).collect();
                                 let mut bl = vec![p.e_cap - rsig.e * p.challenge];
                                 for (j, m) in ms.iter().enumerate() {
@@ -103,7 +106,10 @@ pub fn run(r: &Ref, proc_id: u64, threads: usize, iters: usize, seed: u64) -> Ve
                             let cm = msgs[..n].to_vec();
                             let _ = verif_hooks::take_draws();
                             if let Out::Ok((cb, blind)) = lib::commit(s, &Some(cm.clone()), None) {
-                                let c = r.commit_decode(&cb).unwrap();
+                                let Ok(c) = r.commit_decode(&cb) else {
+                                    evs.push(json!({"op": "Made", "kind": "commit", "id": id, "blind": [], "pts": [], "secrets": [], "minbits": 0, "zero": true, "note": "the reference decoder refuses the artefact (degenerate value)"}));
+                                    continue;
+                                };
                                 let b = scalar_from_be(&blind).unwrap();
                                 let ms: Vec<Scalar> = cm.iter().map(|m| r.msg_scalar(s, &bapi, m)).collect();
                                 let mut bl = vec![b, c.s_cap - b * c.challenge];
@@ -122,12 +128,27 @@ pub fn run(r: &Ref, proc_id: u64, threads: usize, iters: usize, seed: u64) -> Ve
                         2 => {
                             // blind proof over a blind signature with a commitment: everything hidden
                             let cm = msgs[..n.min(6)].to_vec();
-                            let (cb, blind) = lib::commit(s, &Some(cm.clone()), None).ok().unwrap();
-                            let sig = lib::blind_sign(s, &sk, &pk, &Some(cb), &hdr, &Some(msgs[..1].to_vec()), None).ok().unwrap();
-                            let rsig = r.sig_decode(&sig).unwrap();
+                            // (a library that refuses its own commitment here is another property's business: the
+                            // iteration then only contributes its draws)
+                            let made_sig = match lib::commit(s, &Some(cm.clone()), None) {
+                                Out::Ok((cb, blind)) => match lib::blind_sign(s, &sk, &pk, &Some(cb), &hdr, &Some(msgs[..1].to_vec()), None) {
+                                    Out::Ok(sig) => r.sig_decode(&sig).ok().map(|rs| (sig, rs, blind)),
+                                    _ => None,
+                                },
+                                _ => None,
+                            };
+                            let Some((sig, rsig, blind)) = made_sig else {
+                                for d in verif_hooks::take_draws() {
+                                    evs.push(json!({"op": "Draw", "proc": proc_id, "thr": thr, "seq": d.seq, "site": d.site, "dig": dig(&d.value)}));
+                                }
+                                continue;
+                            };
                             let _ = verif_hooks::take_draws();
                             if let Out::Ok(pb) = lib::blind_proof_gen(s, &pk, &sig, &hdr, &None, &Some(msgs[..1].to_vec()), &Some(cm.clone()), &None, &None, &Some(blind.clone()), None) {
-                                let p = r.proof_decode(&pb).unwrap();
+                                let Ok(p) = r.proof_decode(&pb) else {
+                                    evs.push(json!({"op": "Made", "kind": "blindproof", "id": id, "blind": [], "pts": [], "secrets": [], "minbits": 0, "zero": true, "note": "the reference decoder refuses the artefact (degenerate value)"}));
+                                    continue;
+                                };
                                 let mut ms: Vec<Scalar> = vec![r.msg_scalar(s, &bapi, &msgs[0]), scalar_from_be(&blind).unwrap()];
                                 ms.extend(cm.iter().map(|m| r.msg_scalar(s, &bapi, m)));
                                 let mut bl = vec![p.e_cap - rsig.e * p.challenge];
@@ -148,10 +169,13 @@ pub fn run(r: &Ref, proc_id: u64, threads: usize, iters: usize, seed: u64) -> Ve
                             let mut secrets = vec![];
                             let mut pts = vec![];
                             let mut mb = 255u32;
-                            if let Out::Ok((ksk, kpk)) = lib::key_random(if i % 8 == 3 { Suite::Sha } else { Suite::Shake }) {
-                                secrets.push(dig(&ksk));
-                                pts.push(dig(&kpk));
-                                mb = mb.min(bits(&scalar_from_be(&ksk).unwrap()));
+                            // two key pairs one after the other (nothing else drawn in between), then a blind factor
+                            for _ in 0..2 {
+                                if let Out::Ok((ksk, kpk)) = lib::key_random(if i % 8 == 3 { Suite::Sha } else { Suite::Shake }) {
+                                    secrets.push(dig(&ksk));
+                                    pts.push(dig(&kpk));
+                                    mb = mb.min(bits(&scalar_from_be(&ksk).unwrap()));
+                                }
                             }
                             if let Out::Ok(bf) = lib::guard_plain(None, || zkryptium::bbsplus::commitment::BlindFactor::random().to_bytes().to_vec()) {
                                 secrets.push(dig(&bf));
@@ -193,6 +217,37 @@ pub fn run(r: &Ref, proc_id: u64, threads: usize, iters: usize, seed: u64) -> Ve
             });
         }
     });
+    // burst: all threads draw blind factors and commitments at the same moment, in a tight loop (whatever the
+    // randomness source shares between threads is exercised under contention)
+    if threads >= 2 {
+        let barrier = std::sync::Barrier::new(threads);
+        std::thread::scope(|sc| {
+            for t in 0..threads {
+                let out = &out;
+                let barrier = &barrier;
+                sc.spawn(move || {
+                    barrier.wait();
+                    let mut secrets = vec![];
+                    let (mut zero, mut mb) = (false, 255u32);
+                    for k in 0..400 {
+                        let bf = if k % 8 == 7 {
+                            lib::commit(s, &None, None).ok().map(|x| x.1)
+                        } else {
+                            lib::guard_plain(None, || zkryptium::bbsplus::commitment::BlindFactor::random().to_bytes().to_vec()).ok()
+                        };
+                        if let Some(b) = bf {
+                            let sc = scalar_from_be(&b).unwrap();
+                            zero |= sc == Scalar::ZERO;
+                            mb = mb.min(bits(&sc));
+                            secrets.push(dig(&b));
+                        }
+                    }
+                    let ev = json!({"op": "Made", "kind": "burst", "id": format!("p{proc_id}t{t}burst"), "blind": [], "pts": [], "secrets": secrets, "minbits": mb, "zero": zero});
+                    out.lock().unwrap().push(ev);
+                });
+            }
+        });
+    }
     let _ = pkp;
     out.into_inner().unwrap()
 }
